@@ -538,7 +538,7 @@ Proof. vm_compute. split; reflexivity. Qed.
    the name as given.  For a normalised name the reference resolves [hp p] as it
    resolves [p], [hp] is idempotent and does not climb: so the theorem holds for
    ROOTED names as well ([denv_r] = [denv] with relative weakened to normalised),
-   now with Mknod (the host's mknod succeeding) and Readnod (of a name that is not
+   now with Mknod (the host's mknod succeeding or answering EEXIST) and Readnod (of a name that is not
    itself a symbolic link: dirFS asks os.Stat first, which follows it).  The
    premise "inode 0 of the host is a directory" holds of every state reached from
    the empty directory (it is what makes "/" and "." the same name). *)
@@ -562,7 +562,7 @@ Print Assumptions c17_dirfs_run_refines_rooted.
    the overlay is asked only for [syn_ev w]: the weight of the operation's own
    openFile/MkdirAll path within the budget, and no clause of its envelope OTHER
    than the link clause failing.  (What stays semantic is dirFS's own: the host's
-   link(2) conditions, MkdirAll / mknod not failing on the host.) *)
+   link(2) conditions, MkdirAll not failing and mknod failing at most with EEXIST on the host.) *)
 Theorem c17_dirfs_run_refines_class : forall w ops,
   forallb tame_op ops = true -> forallb (wt_op w) ops = true -> run_in_denv_g (syn_ev w) dinit ops = true ->
   dsync (fst (dirfs_run dinit ops)) /\
@@ -577,6 +577,28 @@ Theorem c17_dirfs_overlay_class_invariant : forall w d o,
   ovinv w (d_ov d) -> tame_op o = true -> wt_op w o = true -> ovinv w (d_ov (fst (dirfs_step d o))).
 Proof. exact dirfs_step_ovinv. Qed.
 Print Assumptions c17_dirfs_overlay_class_invariant.
+
+(* Mknod of a name that is taken (repaired by fix bfd5027; was finding C17-F20: dirFS
+   called os.WriteFile(name, nil, 0) whenever unix.Mknod failed, which emptied an
+   existing regular file and answered with WriteFile's error on a directory; the old
+   witness is kept as a regression replay: corpus scenario dirfs/mknod): the answer
+   is ErrExist and NOTHING changes, on the host or in the overlay. *)
+Theorem c17_dirfs_mknod_existing_unchanged : forall d p perm dev,
+  dsync d -> is_dir (heap (d_host d)) 0 = true -> clean_leaf_path p = true ->
+  E MemFS (d_ov d) (Mknod p perm dev) = true ->
+  snd (spec_step (d_host d) (Mknod p perm dev)) = OErr EExist ->
+  dirfs_step d (Mknod p perm dev) = (d, OErr EExist).
+Proof. exact mknod_existing. Qed.
+Print Assumptions c17_dirfs_mknod_existing_unchanged.
+
+Example c17_dirfs_mknod_existing_demo :
+  let d := fst (dirfs_run dinit [WriteFile ["f"] [97; 98; 99]%N 420%N; Mkdir ["d"] 493%N]) in
+  dsync d /\ E MemFS (d_ov d) (Mknod ["f"] 432%N 259%N) = true /\
+  dirfs_step d (Mknod ["f"] 432%N 259%N) = (d, OErr EExist) /\
+  dirfs_step d (Mknod ["d"] 432%N 259%N) = (d, OErr EExist) /\
+  snd (dirfs_step (fst (dirfs_step d (Mknod ["f"] 432%N 259%N))) (ReadFile ["f"])) = OBytes [97; 98; 99]%N /\
+  run_in_denv_g (E MemFS) dinit [WriteFile ["f"] [97; 98; 99]%N 420%N; Mknod ["f"] 432%N 259%N; ReadFile ["f"]] = true.
+Proof. vm_compute. repeat split; reflexivity. Qed.
 
 Definition c17_dirfs_rooted_demo : list op :=
   [ Mkdir [""; "d"] 493%N; WriteFile [""; "d"; "f"] [1; 2; 3]%N 420%N; Symlink ["d"] [""; "l"]; Stat ["l"; "f"]; ReadDir [""; ""]; ReadDir [""; "d"];
@@ -612,15 +634,15 @@ Print Assumptions c17_dirfs_drift_refuted.
 
 (* ---- the sub-filesystem view (sub.go: SubFS) -----------------------------------------------------
    [sub_step b root] (Model/SubFS.v): every method joins its name to the root with
-   filepath.Join and calls the parent; Symlink and Link pass their names on
-   unjoined (as the code does today).  For a root of ordinary names, an operation
-   that SubFS joins and names without a ".." component: the step through the
+   filepath.Join and calls the parent (Symlink and Link too since fix 44061d3: the
+   new name, and Link's old name; a link's target is kept as given).  For a root of
+   ordinary names and names without a ".." component, EVERY operation: the step through the
    sub-filesystem IS the parent's step at root/name (the root followed by the
    name's ordinary components), hence the reference's step there inside that
    operation's envelope; and every path the parent is asked about lies under the
    root (lexically: root followed by ordinary names). *)
 Theorem c17_subfs_is_parent_at_joined_path : forall b root s o,
-  plain_root root = true -> sub_joined o = true -> forallb no_dotdot (sub_paths o) = true ->
+  plain_root root = true -> forallb no_dotdot (sub_paths o) = true ->
   sub_step b root s o = model_step b s (at_root root o) /\
   (E b s (at_root root o) = true -> sub_step b root s o = spec_step s (at_root root o)).
 Proof. exact sub_step_refines. Qed.
@@ -641,14 +663,10 @@ Example c17_subfs_nonvacuous : forall b,
   snd (sub_step b root (fst (sub_step b root s (WriteFile ["f"] [1]%N 420%N))) (ReadDir ["."])) = ODir [("f", KReg)].
 Proof. intro b; destruct b; vm_compute; repeat split; reflexivity. Qed.
 
-(* neither premise can go (both replayed on the real SubFS: corpus scenarios
-   subfs/dotdot-escapes, subfs/symlink-link-unjoined; findings C17-F21, C17-F22):
-   - a ".." in the name climbs out of the root: through the view rooted at d,
-     WriteFile ../x creates /x in the PARENT, and ReadFile ../out reads a file
-     that lies outside the root;
-   - Symlink and Link are not joined: Symlink f l through the view makes /l in
-     the parent's root (Readlink l through the view: not found), and Link f g
-     looks f up in the parent's root although ReadFile f through the view reads it. *)
+(* the premise cannot go (replayed on the real SubFS: corpus scenario
+   subfs/dotdot-escapes; finding C17-F21): a ".." in the name climbs out of the
+   root: through the view rooted at d, WriteFile ../x creates /x in the PARENT, and
+   ReadFile ../out reads a file that lies outside the root. *)
 Theorem c17_subfs_dotdot_refuted : forall b,
   let s := after b [Mkdir ["d"] 493%N; WriteFile ["out"] [7]%N 420%N] in
   let s1 := fst (sub_step b ["d"] s (WriteFile [".."; "x"] [1]%N 420%N)) in
@@ -664,21 +682,33 @@ Proof.
 Qed.
 Print Assumptions c17_subfs_dotdot_refuted.
 
-Theorem c17_subfs_symlink_link_unjoined_refuted : forall b,
+(* Symlink and Link through the view (repaired by fix 44061d3; was finding C17-F22,
+   the old witness is kept as a regression replay: corpus scenario
+   subfs/symlink-link-unjoined): they are covered by the two theorems above without
+   exception; on the former witness: Symlink f l through the view rooted at d makes
+   d/l (Readlink l through the view reads it back, the parent's root has no l), and
+   Link f g links d/f, the file ReadFile f through the view reads. *)
+Theorem c17_subfs_symlink_link_joined : forall b,
+  (forall root t p old new, plain_root root = true -> no_dotdot p = true -> no_dotdot old = true -> no_dotdot new = true ->
+     sub_op root (Symlink t p) = at_root root (Symlink t p) /\ sub_op root (Link old new) = at_root root (Link old new)) /\
   let s := after b [Mkdir ["d"] 493%N; WriteFile ["d"; "f"] [1]%N 420%N] in
   let s1 := fst (sub_step b ["d"] s (Symlink ["f"] ["l"])) in
+  let s2 := fst (sub_step b ["d"] s1 (Link ["f"] ["g"])) in
   snd (sub_step b ["d"] s (Symlink ["f"] ["l"])) = OOk /\
-  snd (sub_step b ["d"] s1 (Readlink ["l"])) = OErr ENotExist /\
-  snd (model_step b s1 (Readlink ["l"])) = OPath ["f"] /\
-  snd (model_step b s1 (ReadDir ["d"])) = ODir [("f", KReg)] /\
-  snd (sub_step b ["d"] s (ReadFile ["f"])) = OBytes [1]%N /\
-  snd (sub_step b ["d"] s (Link ["f"] ["g"])) = OErr ENotExist /\
-  snd (spec_step s (at_root ["d"] (Link ["f"] ["g"]))) = OOk /\
-  sub_op ["d"] (Symlink ["f"] ["l"]) <> at_root ["d"] (Symlink ["f"] ["l"]).
+  snd (sub_step b ["d"] s1 (Readlink ["l"])) = OPath ["f"] /\
+  snd (sub_step b ["d"] s1 (ReadFile ["l"])) = OBytes [1]%N /\
+  snd (model_step b s1 (Readlink ["l"])) = OErr ENotExist /\
+  snd (sub_step b ["d"] s1 (Link ["f"] ["g"])) = OOk /\
+  snd (sub_step b ["d"] s2 (ReadFile ["g"])) = OBytes [1]%N /\
+  snd (model_step b s2 (ReadDir ["d"])) = ODir [("f", KReg); ("g", KReg); ("l", KSym)] /\
+  snd (model_step b s2 (ReadDir [""; ""])) = ODir [("d", KDir)] /\
+  sub_step b ["d"] s (Symlink ["f"] ["l"]) = spec_step s (at_root ["d"] (Symlink ["f"] ["l"])).
 Proof.
-  intro b; destruct b; vm_compute; repeat split; try reflexivity; intro H; discriminate H.
+  intro b. split.
+  - intros root t p old new Hr Hp Ho Hn. split; apply sub_op_at_root; try exact Hr; cbn [sub_paths forallb]; rewrite ?Hp, ?Ho, ?Hn; reflexivity.
+  - destruct b; vm_compute; repeat split; reflexivity.
 Qed.
-Print Assumptions c17_subfs_symlink_link_unjoined_refuted.
+Print Assumptions c17_subfs_symlink_link_joined.
 
 (* ---- the tar-entry channel of pkg/tarfs -----------------------------------------------------------
    [tstep] (Model/TarEntry.v): the tree model of tarfs plus, per inode, the package's
